@@ -59,6 +59,18 @@ CLAIMED = {
         design='5.6 C18', technique='Coq proof over source-derived plumbing facts (translator) + differential histories',
         note=COMMON_NOTE + ' The renderers and python_to_sdocs themselves are covered by C04/C01; here they are the '
              'reference the entry points are compared with. cpprint is exercised with colour disabled.'),
+    'C15': dict(
+        text='Theorem C15_refines (Proofs/DispatchProofs.v): for every class lattice, every predicate behaviour and '
+             'EVERY history of registrations (class / name / predicate), prints and is_registered queries, the '
+             'observations of the model of register_pretty / is_registered / pretty_python_value equal those of the '
+             '20-line abstract rule (simulation with the abstraction "deferred entry overlays registry entry", '
+             'induction over the history). C15_isreg_pure: register_deferred=False changes nothing. '
+             'check_deferred=False is only proved sound (it is an implementation-level query). The model is run '
+             'against the implementation on fresh class lattices, observations compared step by step, and the rule is '
+             're-implemented independently in Python as the oracle.',
+        design='5.6 C15', technique='Coq refinement proof (simulation over operation histories) + differential histories',
+        note=COMMON_NOTE + ' functools.singledispatch is reduced to "nearest class of the C3 MRO with a registry entry" '
+             '(no ABCs in the lattice); MROs are computed by CPython and passed to the model.'),
 }
 
 PENDING = 'check not built yet in this round (see DESIGN.md section 8 for the order of work)'
